@@ -9,7 +9,7 @@ This module also holds `Sym`, a small path-enumerating abstract interpreter over
 (used by C02 and C10 to extract exact decision tables from function bodies)."""
 import re
 from engine import RuleSet
-from facts import AnchorMissing, callee_names
+from facts import AnchorMissing, callee_names, same_module_private
 import mirq as Q
 import hirq as H
 import pp
@@ -1589,6 +1589,75 @@ INSPECTORS = {
 }
 
 
+# inventory entries whose handling of the divert is decided IN PLACE by this rule (tables below): a private helper of one of
+# these is inlined into its caller before the table is evaluated
+_R6_TABLED = ('yash_semantics::command::simple_command::function::execute_function_body',
+              'yash_builtin::source::semantics::consume_return',
+              'yash_semantics::trap::run_trap')
+
+
+def _fn_escapes(F, fn):
+    """fn is mentioned as a value (fn item constant) somewhere: it can be called from places the call graph does not show."""
+    crate = fn.split('::')[0]
+
+    def mentions(n):
+        if isinstance(n, dict):
+            if n.get('fn') == fn and 'c' in n:
+                return True
+            return any(mentions(v) for v in n.values() if isinstance(v, (dict, list)))
+        if isinstance(n, list):
+            return any(mentions(x) for x in n)
+        return False
+    for b in F.bodies.values():
+        if not b.fn.startswith(crate + '::') and not b.fn.startswith('<'):
+            continue
+        for blk, j, st in b.stmts():
+            if mentions(st):
+                return True
+        for blk, t in b.calls():
+            if mentions(t.get('a')) or mentions((t.get('f') or {}).get('indirect')):
+                return True
+    return False
+
+
+def inherited_inspectors(cx, F, insp):
+    """{helper: [inventory entries calling it]}: a PRIVATE function that tells Divert variants apart, is not itself in the
+    inventory, is only ever CALLED (never taken as a value), and all of whose callers are reviewed inventory entries of the same
+    module, is a piece of those entries extracted into a helper: it inherits their review (it may name only the variants they may
+    name) and is analysed as part of them (inlined into the tables below). One level only."""
+    out = {}
+    for fn in sorted(insp):
+        if fn in INSPECTORS or fn.startswith('<%s as ' % DIVERT):
+            continue
+        sig = F.fns.get(fn)
+        if sig is None or sig.get('vis') == 'pub':
+            continue
+        callers = sorted({b.root for b, i, t in F.callers_of(lambda names, t: fn in names)} - {fn})
+        if not callers or any(c not in INSPECTORS for c in callers):
+            continue
+        accept = [c for c in callers if same_module_private(F, c)(fn)]
+        if accept != callers or _fn_escapes(F, fn):
+            continue
+        out[fn] = callers
+    return out
+
+
+def _with_helpers(cx, F, body, inherited):
+    """body with the inherited Divert-inspecting helpers of its function inlined (the table is then decided on the whole);
+    fails closed when such a helper cannot be seen in place (async, too large, called from a closure)."""
+    mine = sorted(h for h, cs in inherited.items() if body.root in cs)
+    if not mine:
+        return body
+    nb = F.inlined(body, accept=lambda c: c in mine)
+    got = set(getattr(nb, 'inlined_from', None) or [])
+    cx.require(all(h in got for h in mine) and
+               not [1 for b in F.logical(body.root) if b.fn != body.fn for i, t in b.calls() if t['f'].get('def') in mine],
+               '%s: the helper(s) %s tell Divert variants apart but cannot be analysed in place' % (body.root, ', '.join(mine)))
+    for h in mine:
+        cx.fn(h)
+    return nb
+
+
 def _divert_inputs():
     ins = [('normal', mk_enum('Continue', UNIT))]
     for v in ('Continue', 'Break'):
@@ -1604,6 +1673,7 @@ def _divert_inputs():
 def r6(cx):
     F = cx.F
     insp = divert_inspectors(F)
+    inherited = inherited_inspectors(cx, F, insp)
     for fn, vs in sorted(insp.items()):
         if fn.startswith('<%s as ' % DIVERT):
             continue       # derived trait impls of Divert itself
@@ -1612,6 +1682,23 @@ def r6(cx):
         h = F.hir.get(fn) or {}
         loc = '%s:%s' % (h.get('file'), h.get('line'))
         ok = INSPECTORS.get(fn)
+        if ok is None and fn in inherited:
+            # a private helper extracted from reviewed inventory entries: reviewed as part of them
+            for c in inherited[fn]:
+                cx.site('%s is a private helper of the inventory entry %s' % (fn, c))
+                if not vs <= INSPECTORS[c][0]:
+                    cx.violation(c, 'extra-variants', 'this function (%s) now also matches on Divert::{%s} (in its helper %s)'
+                                 % (INSPECTORS[c][1], ','.join(sorted(vs - INSPECTORS[c][0])), fn.split('::')[-1]), loc=loc)
+                if c not in _R6_TABLED:
+                    # the caller's handling of the divert is decided by another rule on the caller's own body: a helper that
+                    # can write to a divert / result of its caller through `&mut` would escape that analysis
+                    ins = (F.fns.get(fn) or {}).get('inputs')
+                    muts = [m for m in (ins or []) if re.search(r'&(\'\w+ )?mut ', str(m)) and
+                            re.search(r'Divert|ControlFlow', str(m))]
+                    cx.require(ins is not None and not muts,
+                               '%s: its helper %s tells Divert variants apart and can write to a divert of its caller; '
+                               'not analysable in place' % (c, fn))
+            continue
         if ok is None:
             cx.violation(fn, 'unreviewed-inspector', 'this function tells Divert variants apart (%s) but is not in the '
                          'reviewed inventory: a place that can swallow or rewrite break/continue/return/exit requests'
@@ -1623,6 +1710,7 @@ def r6(cx):
     # the function call
     efb = F.main_body('yash_semantics::command::simple_command::function::execute_function_body')
     cx.fn(efb.fn)
+    efb = _with_helpers(cx, F, efb, inherited)
     eloc = '%s:%d' % (pp_rel(efb.file), efb.line)
     BODY = ['yash_env::function::FunctionBodyObject::execute', '*::FunctionBodyObject::execute']
     for label, x in _divert_inputs():
@@ -1653,6 +1741,8 @@ def r6(cx):
     # the dot script
     cr = F.body('yash_builtin::source::semantics::consume_return')
     cx.fn(cr.fn)
+    cr_fn = cr.fn
+    cr = _with_helpers(cx, F, cr, inherited)
     for label, x in _divert_inputs():
         outs = [o for o in sym_paths(cx, F, cr, None, {1: x}) if o['end'] == 'return']
         cx.cellcount(1)
@@ -1664,7 +1754,7 @@ def r6(cx):
         if got != want:
             cx.violation(cr.fn, 'dot-script-result:%s' % label, 'consume_return(%s) = %s, expected %s'
                          % (vfmt(x), got, want), loc='%s:%d' % (pp_rel(cr.file), cr.line))
-    users = F.callers_of(lambda names, t: cr.fn in names)
+    users = F.callers_of(lambda names, t: cr_fn in names)
     for b, i, t in users:
         cx.site('consume_return called by %s' % b.root)
         if not b.root.startswith('yash_builtin::source::'):
@@ -1672,6 +1762,7 @@ def r6(cx):
     # run_trap never changes the kind of divert
     rt = F.main_body('yash_semantics::trap::run_trap')
     cx.fn(rt.fn)
+    rt = _with_helpers(cx, F, rt, inherited)
     REL = ['yash_semantics::runner::read_eval_loop', '*::read_eval_loop']
     for label, x in _divert_inputs():
         def oracle(sym, st, t, args, x=x):
